@@ -22,7 +22,73 @@ const (
 	effErr
 	effPath   // c.Path(arg) then Next
 	effMethod // c.Method(arg) then Next
+	// c.Path(<string derived from the current c.Path() or c.OriginalURL()>) then Next: the
+	// prefix-stripping idiom c.Path(strings.TrimPrefix(c.Path(), "/api")) — the new path is a
+	// view of the string the context handed out
+	effPathDerive
 )
+
+// derivePath computes the override of an effPathDerive handler from the current path (cur) and
+// the request URI as sent (orig). Pure string work, used by the handler and by the oracle. A
+// result that is not a rooted path leaves the path as it is.
+func derivePath(cur, orig, arg string) string {
+	out := cur
+	switch {
+	case arg == "orig":
+		out = orig
+	case strings.HasPrefix(arg, "trim:"):
+		out = strings.TrimPrefix(cur, arg[5:])
+	case strings.HasPrefix(arg, "trimsuffix:"):
+		out = strings.TrimSuffix(cur, arg[11:])
+	case strings.HasPrefix(arg, "cut:"):
+		n := int(arg[4] - '0')
+		if n < len(cur) {
+			out = cur[n:]
+		}
+	}
+	if out == "" || out[0] != '/' {
+		return cur
+	}
+	return out
+}
+
+var deriveArgs = []string{"trim:/a", "trim:/ab", "trim:/abc", "trim:/A", "trim:/x", "cut:2", "cut:3", "cut:4", "trimsuffix:/d", "trimsuffix:/", "trimsuffix:c", "orig"}
+
+// spellPath writes out the full path of `sub` registered under `prefix`: the prefix itself for
+// an empty sub-path, otherwise prefix and sub-path joined by exactly one slash.
+func spellPath(prefix, sub string) string {
+	if sub == "" {
+		return prefix
+	}
+	if prefix == "" {
+		return sub
+	}
+	return strings.TrimRight(prefix, "/") + "/" + strings.TrimLeft(sub, "/")
+}
+
+// groupPrefix is the spelled-out prefix of group gid ("" for the app).
+func (p *program) groupPrefix(gid int) string {
+	if gid < 0 {
+		return ""
+	}
+	g := p.Groups[gid]
+	return spellPath(p.groupPrefix(g.Parent), g.Prefix)
+}
+
+// fullPath is the spelled-out path under which unit u registers its handlers.
+func (p *program) fullPath(u *unit) string {
+	if len(u.RoutePath) > 0 {
+		acc := u.RoutePath[0]
+		for _, s := range u.RoutePath[1:] {
+			acc = spellPath(acc, s)
+		}
+		return acc
+	}
+	if u.Kind == "usenp" {
+		return p.groupPrefix(u.Gid)
+	}
+	return spellPath(p.groupPrefix(u.Gid), u.Path)
+}
 
 type hspec struct {
 	ID  int    `json:"id"`
@@ -83,10 +149,16 @@ func genProgram(r *gen.Rand) *program {
 	methods := p.Cfg.Methods()
 	n := r.Range(1, 14)
 	nextID := 0
+	forceK := 0
 	mkHs := func(allowEff bool) []hspec {
 		k := 1
 		if r.Chance(1, 4) {
 			k = r.Range(2, 3)
+		} else if r.Chance(1, 8) {
+			k = r.Range(4, 7)
+		}
+		if forceK > 0 {
+			k, forceK = forceK, 0
 		}
 		hs := make([]hspec, k)
 		for i := range hs {
@@ -96,7 +168,7 @@ func genProgram(r *gen.Rand) *program {
 		// effects: mostly Next; the last handler of a unit may stop / err / rewrite
 		if allowEff {
 			last := &hs[k-1]
-			switch r.PickW(50, 25, 5, 12, 8) {
+			switch r.PickW(50, 25, 5, 12, 8, 8) {
 			case 1:
 				last.Eff = effStop
 			case 2:
@@ -107,6 +179,9 @@ func genProgram(r *gen.Rand) *program {
 			case 4:
 				last.Eff = effMethod
 				last.Arg = gen.Pick(r, methods)
+			case 5:
+				last.Eff = effPathDerive
+				last.Arg = gen.Pick(r, deriveArgs)
 			}
 		}
 		return hs
@@ -115,10 +190,8 @@ func genProgram(r *gen.Rand) *program {
 	for len(p.Units) < n {
 		// open / close groups
 		if r.Chance(1, 6) && len(p.Groups) < 4 {
+			// the empty prefix included: grp.Group("", mw) attaches middleware to a part of a group
 			g := group{Parent: curG, Prefix: genPrefix(r), Unit: -1}
-			if g.Prefix == "" {
-				g.Prefix = "/"
-			}
 			gid := len(p.Groups)
 			if r.Bool() {
 				g.Unit = len(p.Units)
@@ -175,8 +248,8 @@ func genProgram(r *gen.Rand) *program {
 				continue // Route() chains hang off the app
 			}
 			u.RoutePath = []string{genPath(r)}
-			if r.Chance(1, 3) {
-				u.RoutePath = append(u.RoutePath, gen.Pick(r, []string{"/d", "/:q", "/"}))
+			for lvl := 0; lvl < 2 && r.Chance(1, 3); lvl++ {
+				u.RoutePath = append(u.RoutePath, gen.Pick(r, []string{"/d", "/:q", "/", "", "/d/", "/abc/", "d"}))
 			}
 			if r.Chance(1, 4) {
 				u.Kind = "route.all"
@@ -185,12 +258,34 @@ func genProgram(r *gen.Rand) *program {
 				u.Methods = []string{gen.Pick(r, methods)}
 			}
 		}
+		// an empty sub-path on a group: grp.Get("", h) answers the group's prefix itself
+		if curG >= 0 && (u.Kind == "m" || u.Kind == "add" || u.Kind == "all" || u.Kind == "use") && r.Chance(1, 6) {
+			u.Path = ""
+		}
+		// same path registered again for single methods right behind a registration for several
+		// methods (All / Add with a list, 1–7 handlers), with handlers of its own
+		again := len(u.RoutePath) == 0 && (u.Kind == "all" || u.Kind == "add") && r.Chance(1, 3)
+		if again {
+			forceK = r.Range(1, 7)
+		}
 		u.Hs = mkHs(true)
 		p.Units = append(p.Units, u)
+		if again {
+			ms := u.Methods
+			if u.Kind == "all" {
+				ms = methods
+			}
+			for j := 0; j < 2 && j < len(ms); j++ {
+				t := unit{Gid: u.Gid, Kind: "m", Methods: []string{ms[(j+r.Intn(len(ms)))%len(ms)]}, Path: u.Path, Multi: -1}
+				t.Hs = mkHs(true)
+				p.Units = append(p.Units, t)
+			}
+			continue
+		}
 		// near-twin registered right behind: same call, path differing only in letter case,
 		// trailing slash or escaping (the router folds *identical* consecutive registrations
 		// into one route; near-twins must stay separate routes)
-		if len(u.RoutePath) == 0 && u.Kind != "usenp" && r.Chance(1, 5) {
+		if len(u.RoutePath) == 0 && u.Kind != "usenp" && u.Path != "" && r.Chance(1, 5) {
 			t := u
 			t.Path = twinPath(r, u.Path)
 			t.Hs = mkHs(true)
@@ -340,6 +435,8 @@ func (b *builder) handler(h hspec) fiber.Handler {
 			return fiber.NewError(418, "teapot")
 		case effPath:
 			c.Path(h.Arg)
+		case effPathDerive:
+			c.Path(derivePath(c.Path(), c.OriginalURL(), h.Arg))
 		case effMethod:
 			c.Method(h.Arg)
 		}
@@ -475,6 +572,68 @@ func buildSolo(p *program, i int, tr *tracer) *fiber.App {
 	return app
 }
 
+// buildSpelledSolo registers only unit i, directly on the app, under its spelled-out full path
+// (no Group, no Route chain).
+func buildSpelledSolo(p *program, i int, tr *tracer) *fiber.App {
+	app := p.Cfg.NewApp()
+	b := &builder{tr: tr, solo: true}
+	u := &p.Units[i]
+	h0, hr := b.hs(u)
+	full := p.fullPath(u)
+	switch u.Kind {
+	case "m", "add", "route.m":
+		app.Add(u.Methods, full, h0, hr...)
+	case "all":
+		app.All(full, h0, hr...)
+	case "use", "usenp", "groupuse", "route.all": // Route(path).All(h) registers a prefix middleware
+
+		app.Use(append([]any{full}, anyHs(h0, hr)...)...)
+	}
+	return app
+}
+
+// prefixClass: input class of a unit registered through groups / Route chains.
+func (p *program) prefixClass(u *unit) string {
+	empty, slash := false, false
+	note := func(s string) {
+		if s == "" {
+			empty = true
+		}
+		if len(s) > 1 && strings.HasSuffix(s, "/") {
+			slash = true
+		}
+	}
+	if len(u.RoutePath) > 0 {
+		for _, s := range u.RoutePath[1:] {
+			note(s)
+		}
+		if len(u.RoutePath) > 1 && len(u.RoutePath[0]) > 1 && strings.HasSuffix(u.RoutePath[0], "/") {
+			slash = true
+		}
+	} else {
+		if u.Kind == "usenp" {
+			empty = true
+		} else {
+			note(u.Path)
+		}
+		for g := u.Gid; g >= 0; g = p.Groups[g].Parent {
+			// prefixes of the enclosing groups: only their trailing slashes matter here
+			if pf := p.Groups[g].Prefix; len(pf) > 1 && strings.HasSuffix(pf, "/") {
+				slash = true
+			}
+		}
+	}
+	switch {
+	case empty && slash:
+		return "empty-sub-path-under-prefix-with-trailing-slash"
+	case empty:
+		return "empty-sub-path"
+	case slash:
+		return "trailing-slash-in-prefix-or-sub-path"
+	}
+	return "plain-prefix-and-sub-path"
+}
+
 // ---- oracle
 
 type soloInfo struct {
@@ -483,12 +642,13 @@ type soloInfo struct {
 }
 
 type oracle struct {
-	p     *program
-	tr    *tracer
-	solos []*soloInfo
-	memo  map[string]bool
-	e     *ev.Env
-	c     *ev.Case
+	p       *program
+	tr      *tracer
+	solos   []*soloInfo
+	spelled []*soloInfo
+	memo    map[string]bool
+	e       *ev.Env
+	c       *ev.Case
 }
 
 func (o *oracle) solo(i int, m, path string) bool {
@@ -510,6 +670,30 @@ func (o *oracle) solo(i int, m, path string) bool {
 	// exactly when RoutePatternMatch (which never consults the 3-byte lookup index) says the
 	// pattern matches it.
 	u := &o.p.Units[i]
+	// Units registered through a group or a Route chain: the same handlers registered directly on
+	// an app under the spelled-out full path handle exactly the same requests.
+	// (a sub-path written with several leading slashes has no single spelled-out form: not compared)
+	if o.e != nil && o.spelled != nil && (u.Gid >= 0 || len(u.RoutePath) > 1 || u.Kind == "groupuse") && !strings.HasPrefix(u.Path, "//") {
+		sp := o.spelled[i]
+		if sp == nil {
+			sp = &soloInfo{d: drive.NewDirect(buildSpelledSolo(o.p, i, o.tr))}
+			o.spelled[i] = sp
+		}
+		o.tr.reset()
+		do(sp.d, m, path)
+		w := len(o.tr.ids) > 0
+		o.e.Eval(1)
+		o.e.Stat("group_or_route_chain_units_compared_with_spelled_path", 1)
+		if w != v {
+			kind := "group"
+			if len(u.RoutePath) > 0 {
+				kind = "route-chain"
+			}
+			o.e.Violation(o.c, fmt.Sprintf("dispatch|%s-registration-differs-from-spelled-path|%s|%s", kind, u.Kind, o.p.prefixClass(u)),
+				fmt.Sprintf("%s %s: unit %s registered through its %s runs=%v, registered directly under the spelled-out path %q runs=%v", m, path, u.Kind, kind, v, o.p.fullPath(u), w),
+				map[string]any{"cfg": o.p.Cfg.String(), "unit": u, "groups": o.p.Groups, "spelled_path": o.p.fullPath(u), "method": m, "path": path})
+		}
+	}
 	if o.e != nil && u.Gid < 0 && len(u.RoutePath) == 0 && (u.Kind == "m" || u.Kind == "add" || u.Kind == "all") && validMethod(o.p.Cfg, m) &&
 		!strings.ContainsAny(path, "?#") {
 		handles := u.Kind == "all"
@@ -546,6 +730,8 @@ type expectation struct {
 	// (like Get(path, h1, h2)); whether h2 is "a later-registered route" or "the next handler of
 	// the same route" is not settled by the statement, so such requests are not judged.
 	Ambiguous bool `json:"ambiguous"`
+	// Derived: an override computed from the current path (a view of the context's own string)
+	Derived bool `json:"path_override_derived_from_current_path"`
 }
 
 func (o *oracle) laterTwin(i int) bool {
@@ -559,7 +745,7 @@ func (o *oracle) laterTwin(i int) bool {
 		norm := func(x *unit) string {
 			p := x.Path
 			if len(x.RoutePath) > 0 {
-				p = strings.Join(x.RoutePath, "")
+				p = strings.Join(x.RoutePath, "/")
 			}
 			for g := x.Gid; g >= 0; g = o.p.Groups[g].Parent {
 				p = o.p.Groups[g].Prefix + "/" + p
@@ -623,6 +809,7 @@ func allMethods(cfg Cfg) []string {
 
 func (o *oracle) expect(m, path string) *expectation {
 	ex := &expectation{}
+	orig := path
 	if !validMethod(o.p.Cfg, m) {
 		ex.Status = 501
 		return ex
@@ -645,15 +832,30 @@ func (o *oracle) expect(m, path string) *expectation {
 			case effErr:
 				ex.Status = 418
 				return ex
-			case effPath:
-				if h.Arg != path {
+			case effPath, effPathDerive:
+				np := h.Arg
+				if h.Eff == effPathDerive {
+					// the handler derives the new path from c.Path(), which is the decoded path
+					// under UnescapePath: only judged where decoding changes nothing
+					if o.p.Cfg.Unescape && strings.ContainsAny(path+orig, "%+") {
+						ex.Ambiguous = true
+					}
+					// a request target with a query or fragment: c.Path() is only its path part and
+					// c.OriginalURL() the whole target; the oracle works on the target as sent
+					if strings.ContainsAny(path+orig, "?#") {
+						ex.Ambiguous = true
+					}
+					np = derivePath(path, orig, h.Arg)
+					ex.Derived = true
+				}
+				if np != path {
 					if o.laterTwin(i) {
 						ex.Ambiguous = true
 					}
-					if !sameBucket(o.p.Cfg, path, h.Arg) {
+					if !sameBucket(o.p.Cfg, path, np) {
 						ex.CrossBkt = true
 					}
-					path = h.Arg
+					path = np
 					ex.PathOv = true
 				}
 			case effMethod:
@@ -720,6 +922,15 @@ func runDispatch(e *ev.Env) {
 		}}
 		checkProgram(e, c, p, [][2]string{{"GET", "/a"}, {"POST", "/a"}, {"PUT", "/a"}})
 	})
+	e.Corpus("all-then-same-path-per-method", func(c *ev.Case) {
+		// app.All("/x", h0..h4); app.Get("/x", h5); app.Post("/x", h6)
+		p := &program{Cfg: Cfg{}, Units: []unit{
+			{Gid: -1, Kind: "all", Path: "/x", Hs: []hspec{{ID: 0}, {ID: 1}, {ID: 2}, {ID: 3}, {ID: 4}}, Multi: -1},
+			{Gid: -1, Kind: "m", Methods: []string{"GET"}, Path: "/x", Hs: []hspec{{ID: 5, Eff: effStop}}, Multi: -1},
+			{Gid: -1, Kind: "m", Methods: []string{"POST"}, Path: "/x", Hs: []hspec{{ID: 6, Eff: effStop}}, Multi: -1},
+		}}
+		checkProgram(e, c, p, [][2]string{{"GET", "/x"}, {"POST", "/x"}, {"PUT", "/x"}})
+	})
 	e.Cases("tables", e.N(4000, 150000), func(c *ev.Case) {
 		r := c.R
 		p := genProgram(r)
@@ -765,17 +976,9 @@ func genRequests(r *gen.Rand, p *program, nreq int) [][2]string {
 		switch r.PickW(70, 15, 15) {
 		case 0:
 			u := p.Units[r.Intn(len(p.Units))]
-			base := u.Path
-			if len(u.RoutePath) > 0 {
-				base = strings.Join(u.RoutePath, "")
-			}
+			base := p.fullPath(&u)
 			if u.Kind == "usenp" {
-				base = genPath(r)
-			}
-			g := u.Gid
-			for g >= 0 {
-				base = strings.TrimRight(p.Groups[g].Prefix, "/") + "/" + strings.TrimLeft(base, "/")
-				g = p.Groups[g].Parent
+				base = spellPath(p.groupPrefix(u.Gid), genPath(r))
 			}
 			path = fillSimple(r, base)
 			if u.Kind == "use" || u.Kind == "groupuse" || u.Kind == "usenp" {
@@ -818,6 +1021,7 @@ func checkProgramStaged(e *ev.Env, c *ev.Case, p *program, reqs [][2]string, pla
 		stages = append(append([]int(nil), plan.Cuts...), len(p.Units))
 	}
 	solos := make([]*soloInfo, len(p.Units))
+	spelled := make([]*soloInfo, len(p.Units))
 	memo := map[string]bool{}
 	var full *drive.Direct
 	for si, upto := range stages {
@@ -846,7 +1050,7 @@ func checkProgramStaged(e *ev.Env, c *ev.Case, p *program, reqs [][2]string, pla
 			// earlier stages serve a slice of the requests (the last dozen: it holds the short paths)
 			sreqs = sreqs[len(sreqs)-12:]
 		}
-		o := &oracle{p: sp, tr: tr, solos: solos, memo: memo, e: e, c: c}
+		o := &oracle{p: sp, tr: tr, solos: solos, spelled: spelled, memo: memo, e: e, c: c}
 		judgeRequests(e, c, p, o, full, tr, sreqs, plan, si)
 		if si > 0 {
 			e.Stat("stages_after_late_registration", 1)
@@ -856,6 +1060,12 @@ func checkProgramStaged(e *ev.Env, c *ev.Case, p *program, reqs [][2]string, pla
 }
 
 func judgeRequests(e *ev.Env, c *ev.Case, p *program, o *oracle, full *drive.Direct, tr *tracer, reqs [][2]string, plan *stagePlan, stage int) {
+	unitOf := map[int]int{}
+	for i := range p.Units {
+		for _, h := range p.Units[i].Hs {
+			unitOf[h.ID] = i
+		}
+	}
 	for _, rq := range reqs {
 		m, path := rq[0], rq[1]
 		var ex *expectation
@@ -882,6 +1092,10 @@ func judgeRequests(e *ev.Env, c *ev.Case, p *program, o *oracle, full *drive.Dir
 			ctxClass = "after-path-override-within-index-bucket"
 		} else if ex.MethodOv {
 			ctxClass = "after-method-override"
+		}
+		if ex.Derived && ex.PathOv {
+			ctxClass += "+new-path-derived-from-current-path"
+			e.Stat("overrides_derived_from_current_path", 1)
 		}
 		if len(ex.Trace) >= 2 || len(path) <= 3 || ex.PathOv || ex.MethodOv || ex.Status == 405 {
 			e.Nontrivial(p.Cfg.String(), fmt.Sprint(ex.Trace), m, path, fmt.Sprint(ex.Status))
@@ -913,6 +1127,28 @@ func judgeRequests(e *ev.Env, c *ev.Case, p *program, o *oracle, full *drive.Dir
 				// one root cause (the route cursor is kept across Method(override) although it
 				// indexes another method's route list): one signature
 				sig = "dispatch|chain-after-method-override"
+			} else {
+				// the first handler that should not have run here: does it belong to a route
+				// registered for other methods only?
+				idx := 0
+				for idx < len(got) && idx < len(ex.Trace) && got[idx] == ex.Trace[idx] {
+					idx++
+				}
+				if idx < len(got) {
+					if ui, ok := unitOf[got[idx]]; ok {
+						u := &p.Units[ui]
+						if u.Kind == "m" || u.Kind == "add" || u.Kind == "route.m" {
+							own := false
+							for _, um := range u.Methods {
+								own = own || um == m
+							}
+							if !own {
+								// one root cause, one signature (no context class)
+								sig = "dispatch|handler-of-route-registered-for-another-method-ran"
+							}
+						}
+					}
+				}
 			}
 			e.Violation(c, sig,
 				fmt.Sprintf("%s %s ran handlers %v, registration-order filter of individually matching routes gives %v", m, path, got, ex.Trace), detail())
